@@ -23,7 +23,8 @@ def explore(ctx, extended=False, focus=None):
                "compared at levels V+S+W; a case is non-trivial if it emitted a constraint or raised; distinct = "
                "distinct (shape, operator set, kinds, bitlength, error class) tuples")
     n = ctx.n(400, 20000) if not extended else ctx.n(3000, 20000)
-    cases = progs.generate(ctx.rnd, n, "c01x" if extended else "c01_")
+    from ..propsbase import corpus_cases
+    cases = corpus_cases("C01") + progs.generate(ctx.rnd, n, "c01x" if extended else "c01_")
     # C01 is about runs where the user has not switched error checking off
     cases = [c for c in cases if c.cfg["ign"] == 0 and not any(i.startswith("set ign") for i in c.instrs)]
     recs = progcheck.execute(cases)
